@@ -27,6 +27,39 @@ def is_stub(repo: Repo, c: ClassInfo) -> bool:
     return len(body) == 1 and isinstance(body[0], ast.Raise) and "NotImplementedError" in ast.unparse(body[0])
 
 
+def selector_vars(repo: Repo, fi) -> dict[str, int]:
+    """locals of the dispatcher that hold (the 16-bit word raw[0]:raw[1]) & mask, by definition rather than by name:
+    name -> mask.  mask 0x3FF is the full APCI code, 0x3C0 the 4-bit service."""
+    out: dict[str, int] = {}
+    from ..astx import walk_local
+    defs = [n for n in walk_local(fi.node) if isinstance(n, ast.Assign) and len(n.targets) == 1 and isinstance(n.targets[0], ast.Name)]
+    count: dict[str, int] = {}
+    for n in walk_local(fi.node):
+        if isinstance(n, ast.Name) and isinstance(n.ctx, ast.Store):
+            count[n.id] = count.get(n.id, 0) + 1
+
+    def word(e: ast.AST) -> int | None:
+        t = ast.unparse(e)
+        if t in ("raw[0] * 256 + raw[1]", "raw[0] << 8 | raw[1]", "(raw[0] << 8) + raw[1]", "raw[1] + raw[0] * 256", "int.from_bytes(raw[:2], 'big')", "int.from_bytes(raw[0:2], 'big')"):
+            return 0xFFFF
+        if isinstance(e, ast.Name) and e.id in out:
+            return out[e.id]
+        if isinstance(e, ast.BinOp) and isinstance(e.op, ast.BitAnd):
+            for a, b in ((e.left, e.right), (e.right, e.left)):
+                m = repo.fold(b, fi.module, fi.cls)
+                w = word(a)
+                if isinstance(m, int) and w is not None:
+                    return w & m
+        return None
+    for d in sorted(defs, key=lambda n: n.lineno):
+        if count.get(d.targets[0].id) != 1:
+            continue
+        w = word(d.value)
+        if w is not None:
+            out[d.targets[0].id] = w
+    return out
+
+
 def dispatch_masks(repo: Repo) -> dict[str, tuple[int, set[int]]]:
     """class name -> (mask of the 10 APCI bits that select it, set of full codes that reach it).
     Read from the dispatcher's guards: an arm under `apci == X` is selected by all 10 bits; an arm under only
@@ -35,6 +68,7 @@ def dispatch_masks(repo: Repo) -> dict[str, tuple[int, set[int]]]:
     cfg = CFG(fi.node)
     mf = cfg.must_facts()
     arms: dict[str, tuple[int | None, int | None]] = {}
+    sel = selector_vars(repo, fi)
     for n in cfg.nodes:
         if not isinstance(n.ast, ast.Return) or not isinstance(n.ast.value, ast.Call):
             continue
@@ -51,9 +85,9 @@ def dispatch_masks(repo: Repo) -> dict[str, tuple[int, set[int]]]:
                 if isinstance(v, EnumMember):
                     v = v.value
                 if isinstance(v, int):
-                    if ast.unparse(e.left) == "service":
+                    if sel.get(ast.unparse(e.left)) == 0x3C0:
                         svc = v
-                    elif ast.unparse(e.left) == "apci":
+                    elif sel.get(ast.unparse(e.left)) == 0x3FF:
                         ap = v
         arms[cn[: -len(".from_knx")]] = (svc, ap)
     out: dict[str, tuple[int, set[int]]] = {}
